@@ -809,38 +809,67 @@ func ruleF18(c *Ctx) *RuleResult {
 				r.undecided("F18: no MediaSequence operand in the id stored by %s: form not known to the rule", FuncName(fn))
 				continue
 			}
-			// every Segments list that the position is searched in
+			// every Segments list that the position is searched in (followed into helper methods of the library
+			// that return the position: their parameters are mapped back to the caller's arguments)
 			bad := ""
 			cnt := 0
 			seen := map[ssa.Value]bool{}
-			var walk func(v ssa.Value)
-			walk = func(v ssa.Value) {
-				if v == nil || seen[v] {
+			var walk func(v ssa.Value, env map[ssa.Value]ssa.Value, depth int)
+			resolve := func(b ssa.Value, env map[ssa.Value]ssa.Value) ssa.Value {
+				b = canon(b)
+				for i := 0; i < 4; i++ {
+					if a, ok := env[b]; ok {
+						b = canon(a)
+						continue
+					}
+					break
+				}
+				return b
+			}
+			walk = func(v ssa.Value, env map[ssa.Value]ssa.Value, depth int) {
+				if v == nil || seen[v] || depth > 3 {
 					return
 				}
 				seen[v] = true
 				switch x := stripConv(v).(type) {
 				case *ssa.Phi:
 					for _, e := range x.Edges {
-						walk(e)
+						walk(e, env, depth)
 					}
 				case *ssa.Extract:
-					walk(x.Tuple)
+					if call, ok := x.Tuple.(*ssa.Call); ok {
+						if h := call.Call.StaticCallee(); h != nil && InRootPkg(h) && h.Blocks != nil && h.Signature.Recv() != nil {
+							// a helper method: follow the returned position
+							env2 := map[ssa.Value]ssa.Value{}
+							for k, a := range call.Call.Args {
+								if k < len(h.Params) {
+									env2[h.Params[k]] = resolve(a, env)
+								}
+							}
+							for _, b := range h.Blocks {
+								if ret, ok := b.Instrs[len(b.Instrs)-1].(*ssa.Return); ok && x.Index < len(ret.Results) {
+									walk(retVal(ret, x.Index), env2, depth+1)
+								}
+							}
+							return
+						}
+					}
+					walk(x.Tuple, env, depth)
 				case *ssa.BinOp:
-					walk(x.X)
-					walk(x.Y)
+					walk(x.X, env, depth)
+					walk(x.Y, env, depth)
 				case *ssa.Call:
 					for _, a := range x.Call.Args {
 						if f, b := loadedField(a); f == sgF {
 							cnt++
-							if !sameObject(b, base) {
+							if resolve(b, env) != canon(base) {
 								bad = "the position comes from " + shortInstr(x) + " over the segments of " + describeVal(b) + " but is added to the MediaSequence of " + describeVal(base)
 							}
 						}
 					}
 				}
 			}
-			walk(pos)
+			walk(pos, map[ssa.Value]ssa.Value{}, 0)
 			switch {
 			case bad != "":
 				r.fail(key, c.Pos(st.Pos()), FuncName(fn), what, bad+": on a live playlist whose window has moved the remembered id is stale, the next reload re-downloads a segment or fails with `next segment not found`")
@@ -973,6 +1002,12 @@ func ruleF20(c *Ctx) *RuleResult {
 				case *ssa.Call:
 					if isFuncNamed(x.Call.StaticCallee(), "strconv", "FormatUint") || isFuncNamed(x.Call.StaticCallee(), "strconv", "FormatInt") || isFuncNamed(x.Call.StaticCallee(), "strconv", "Itoa") {
 						nums = append(nums, x.Call.Args[0])
+					}
+					// fmt.Sprintf("bytes=%d-%d", first, last)
+					if isFuncNamed(x.Call.StaticCallee(), "fmt", "Sprintf") && len(x.Call.Args) == 2 {
+						if f, ok := constString(x.Call.Args[0]); ok && strings.Count(f, "%") == 2 {
+							nums = append(nums, variadicArgs(x.Call.Args[1])...)
+						}
 					}
 				}
 			}
@@ -1305,4 +1340,45 @@ func ruleT7e(c *Ctx) *RuleResult {
 	}
 	r.Instances = n
 	return r
+}
+
+
+// variadicArgs returns the values packed into the slice that go/ssa builds for a variadic call
+// (`new [n]any; &t[k] = make interface <- x; slice t[:]`), in order, with the interface conversion removed.
+func variadicArgs(v ssa.Value) []ssa.Value {
+	sl, ok := v.(*ssa.Slice)
+	if !ok {
+		return nil
+	}
+	al, ok := sl.X.(*ssa.Alloc)
+	if !ok {
+		return nil
+	}
+	byIdx := map[int64]ssa.Value{}
+	for _, ref := range *al.Referrers() {
+		ia, ok := ref.(*ssa.IndexAddr)
+		if !ok {
+			continue
+		}
+		k, ok := constInt(ia.Index)
+		if !ok {
+			continue
+		}
+		for _, r2 := range *ia.Referrers() {
+			if st, ok := r2.(*ssa.Store); ok && st.Addr == ia {
+				val := st.Val
+				if mi, ok := val.(*ssa.MakeInterface); ok {
+					val = mi.X
+				}
+				byIdx[k] = val
+			}
+		}
+	}
+	var out []ssa.Value
+	for k := int64(0); k < int64(len(byIdx)); k++ {
+		if x, ok := byIdx[k]; ok {
+			out = append(out, x)
+		}
+	}
+	return out
 }
